@@ -14,6 +14,14 @@ from harness.framework import MachineryError
 CFG = {"union": False, "eof": False, "void": False, "depth": 1, "max_fields": 4}
 
 
+def observed(fn):
+    """(value, raised): an observed call that raises is an observation (judged as a wrong answer), never a harness failure."""
+    try:
+        return bool(fn()), False
+    except Exception:  # noqa: BLE001
+        return False, True
+
+
 def pick_path(rnd, t, v):
     """A random assignable location inside abstract value v of type t: (path, node type, is_bits)."""
     path = []
@@ -239,7 +247,7 @@ def session_history(rnd, first_id, nev, focus=False):
         elif r_ < 0.86 and len(live) >= 1:
             i, j = rnd.choice(list(live)), rnd.choice(list(live))
             a, b = live[i][0], live[j][0]
-            eq = bool(a == b)
+            eq, eq_raised = observed(lambda: a == b)
             try:
                 heq, hashable = hash(a) == hash(b), True
             except TypeError:
@@ -248,7 +256,8 @@ def session_history(rnd, first_id, nev, focus=False):
                   "obs": {"eq": eq, "heq": heq, "hashable": hashable}})
         elif r_ < 0.93:
             iid = rnd.choice(list(live))
-            emit({"cs": 1, "type": live[iid][2], "mode": modes[0], "consts": consts, "ev": "Bool", "iid": iid, "obs": {"result": bool(live[iid][0])}})
+            emit({"cs": 1, "type": live[iid][2], "mode": modes[0], "consts": consts, "ev": "Bool", "iid": iid,
+                  "obs": dict(zip(("result", "raised"), observed(lambda: bool(live[iid][0]))))})
         else:
             # operations on ANOTHER cstruct object: must not affect anything above
             other = css[2]
@@ -437,7 +446,7 @@ def union_eq_history(rnd, first_id):
                 heq, hashable = hash(member) == hash(so), True
             except TypeError:
                 heq, hashable = False, False
-            ev = dict(base, ev="EqPart", iid=i, j=j + 1, jid=next_iid - 1, obs={"lr": bool(member == so), "rl": bool(so == member), "heq": heq, "hashable": hashable})
+            ev = dict(base, ev="EqPart", iid=i, j=j + 1, jid=next_iid - 1, obs={"lr": observed(lambda: member == so)[0], "rl": observed(lambda: so == member)[0], "heq": heq, "hashable": hashable})
         elif r_ < 0.5:
             i = rnd.choice(list(live))
             try:
@@ -447,7 +456,7 @@ def union_eq_history(rnd, first_id):
             ev = dict(base, ev="Dump", iid=i, obs=ob)
         elif r_ < 0.62:
             i = rnd.choice(list(live))
-            ev = dict(base, ev="Bool", iid=i, obs={"result": bool(live[i][0])})
+            ev = dict(base, ev="Bool", iid=i, obs=dict(zip(("result", "raised"), observed(lambda: bool(live[i][0])))))
         else:
             i, j = rnd.choice(list(live)), rnd.choice(list(live))
             a, b = live[i][0], live[j][0]
@@ -455,7 +464,7 @@ def union_eq_history(rnd, first_id):
                 heq, hashable = hash(a) == hash(b), True
             except TypeError:
                 heq, hashable = False, False
-            ev = dict(base, ev="Eq", iid=i, jid=j, obs={"eq": bool(a == b), "heq": heq, "hashable": hashable})
+            ev = dict(base, ev="Eq", iid=i, jid=j, obs={"eq": observed(lambda: a == b)[0], "heq": heq, "hashable": hashable})
         ev["id"] = rid
         ev["snap"] = [[iid, A.project(o, tt)] for iid, (o, tt) in sorted(live.items())]
         events.append(ev)
@@ -729,12 +738,12 @@ def replay_tlc_sessions(rep, rnd, ncases, num, depth):
                         bad(k, f"instance {j + 1} dumps {str(d)[:200]}, specification {obs['dumps'][j]}")
                         stop = True
                         break
-                if bool(o) != obs["bool"][j]:
-                    bad(k, f"bool(instance {j + 1}) is {bool(o)}, specification {obs['bool'][j]} for {str(got[j])[:200]}")
+                if observed(lambda: bool(o)) != (obs["bool"][j], False):      # noqa: B023
+                    bad(k, f"bool(instance {j + 1}) is {observed(lambda: bool(o))} (value, raised), specification {obs['bool'][j]} for {str(got[j])[:200]}")      # noqa: B023
                     stop = True
                     break
                 for j2, o2 in enumerate(live):
-                    eq = bool(o == o2)
+                    eq = observed(lambda: o == o2)[0] if not observed(lambda: o == o2)[1] else None      # noqa: B023
                     if eq != obs["eq"][j][j2]:
                         bad(k, f"instance {j + 1} == instance {j2 + 1} is {eq}, specification {obs['eq'][j][j2]}")
                         stop = True
